@@ -46,8 +46,12 @@ TRUSTED = [
 ASSUMPTIONS = [
     "integer field magnitudes below 2**1023: _sign() goes through math.copysign, so relativedelta(seconds=10**400) raises "
     "OverflowError before any value exists (observed; outside the model, reported as a remark)",
-    "\"however constructed or combined\" is read as: through the constructor and the operators; assigning attributes of "
-    "the (mutable, hashable) object directly - d.hours = 100, the d.weeks setter - bypasses _fix and is outside the property",
+    "\"however constructed or combined\" includes the object's own history: a relativedelta is mutable (public `weeks` setter, "
+    "attribute assignment).  Attribute assignment bypasses _fix, so the record may leave the normal form and _has_time may go "
+    "stale - that is the code as it is and NOT required to be a value; what IS required (history streams) is that after any "
+    "use/mutate sequence every observation equals the model on the CURRENT record and a fresh object with the same record, "
+    "and relativedelta(**fields) whenever the record is constructor-reachable (theorems use_after_set_eq_fresh, "
+    "same_mutations_same_answer, reachable_state_is_constructed, setWeeks_normalised)",
     "Python's hash of equal tuples of ints/None is equal (CPython guarantee); the theorem is about the tuple that is hashed",
     "asserts enabled (python without -O)",
 ]
@@ -149,28 +153,7 @@ def eval_tree(t, toks):
     raise ValueError(op)
 
 
-def capture_hash_tuple(d):
-    """the tuple relativedelta.__hash__ passes to hash(), canonicalised like Ops `rd.hash`"""
-    from dateutil import relativedelta as R
-    got = []
-
-    def spy(t):
-        got.append(t)
-        return builtins.hash(t)
-    R.hash = spy
-    try:
-        h = hash(d)
-    finally:
-        del R.hash
-    if len(got) != 1 or not isinstance(got[0], tuple) or len(got[0]) != 16:
-        return "unexpected %r" % (got,), h
-    t = got[0]
-    try:
-        w = "-" if t[0] is None else "(%s,%s)" % (L.oint(t[0][0]), L.oint(t[0][1]))
-        # element by element, in the order of the tuple (the model / translation print the same flat form)
-        return " ".join([w] + [L.oint(x) for x in t[1:]]), h
-    except Exception:
-        return "unexpected %r" % (t,), h
+capture_hash_tuple = L.capture_hash_tuple
 
 
 def correspondence(ctx):
@@ -251,6 +234,11 @@ def correspondence(ctx):
         x = L.g_temporal(rng)
         reqs.append("rd.add %s %s" % (L.rd_wire(a), L.t_wire(x))); exp.append(L.run(lambda: x + a, L.t_show))
         ctx.count("corr_add")
+    # (6) the history of one object: use -> mutate (weeks setter / attribute assignment) -> use; after EVERY step the model
+    #     on the current record, rd.setweeks, rd.hist; and the source audit the model's "a use leaves the record alone" rests on
+    history_audit(ctx)
+    hq, he = L.history_corr(ctx, ctx.subrng("corr-history"), values[:ctx.budget(250, 2500)], 8, "corr_history")
+    reqs += hq; exp += he
     reqs, exp = L.with_generated(reqs, exp)
     ctx.count("corr_generated_requests", sum(1 for q in reqs if q.startswith("rdgen.")))
     got = ctx.driver(reqs)
@@ -265,6 +253,14 @@ def correspondence(ctx):
             ctx.mismatch(q.split()[0], q, e, g)
     ctx.traces += len(reqs)
     ctx.count("corr_requests", len(reqs))
+
+
+def history_audit(ctx):
+    sites = L.write_audit()
+    ctx.count("write_audit_sites", len(sites))
+    for site in sites:
+        ctx.mismatch("rd.write_audit", site, "a method of relativedelta writes state outside " + "/".join(L.WRITERS_ALLOWED),
+                     "model: a use leaves the record alone (RDH.step)")
 
 
 def variant(rng, a):
@@ -524,6 +520,11 @@ def oracle(ctx):
     for k in (49, 98, 103, 107, 161, 187, 196, 197, 7, 10):
         check_scalar(ctx, relativedelta(days=k, years=2 * k), k, {"law": "float", "kw": {"days": k, "years": 2 * k}})
     check_nonfinite_fields(ctx)
+    # the history of one object (however constructed: keywords, an expression, a difference of two dates)
+    hr = ctx.subrng("oracle-history")
+    L.history_oracle(ctx, hr, L.g_start_kw, ctx.budget(500, 6000), 10, "history_kw")
+    L.history_oracle(ctx, hr, g_start_expr, ctx.budget(200, 2500), 8, "history_expr")
+    L.history_oracle(ctx, hr, g_start_diff, ctx.budget(200, 2500), 8, "history_diff")
     # int / float / signed-zero / weekday(n as float) twins, explicitly
     for a, b in [(relativedelta(days=1), relativedelta(days=1.0)), (relativedelta(days=0), relativedelta(days=-0.0)),
                  (relativedelta(hours=0.0, seconds=5), relativedelta(seconds=5)),
@@ -610,6 +611,16 @@ def check_scalar(ctx, nd, f, case):
                 ctx.violation("multiplication by the integer-valued scalar %r is not the exact integer product" % (f,), case2)
 
 
+def g_start_expr(rng):
+    a, b = L.g_start_kw(rng), L.g_start_kw(rng)
+    return ("expr", a[1], b[1]) if a and b else None
+
+
+def g_start_diff(rng):
+    a, b = L.g_temporal(rng, ("d", "n")), L.g_temporal(rng, ("d", "n"))
+    return ("diff", L.t_wire(a), L.t_wire(b))
+
+
 def check_nonfinite_fields(ctx):
     """inf / nan passed as a relative field.  What the property needs: either the constructor rejects the value
     (as it must for years/months: ValueError) or the object it returns is a well-behaved value (normal form, d == d)."""
@@ -656,6 +667,8 @@ def replay(ctx, payload):
         print("a=%r b=%r a==b:%s hash-equal:%s" % (a, b, a == b, hash(a) == hash(b)))
         if (a == b) != (hash(a) == hash(b)):
             sub.violation("wdspell", c)
+    elif law == "history":
+        return L.replay_history(c)
     elif law == "nonfinite_field":
         check_nonfinite_fields(sub)
         sub.violations = [v for v in sub.violations if v["case"]["field"] == c["field"] and v["case"]["value"] == c["value"]]
